@@ -46,7 +46,17 @@ def run(ctx) -> None:
         ctx.guard(f"C02.guard-{kind}", guard, kind)
         ctx.guard("C02.nonneg", nonneg, kind)
         ctx.guard("C02.prelimit", prelimit, kind)
+    # the limit comparison is reached for every occurrence of every addressed well: an iteration that is skipped (a zero volume
+    # taken as "nothing to do") returns normally although the well is outside its limits
+    from . import c04 as _c04
+
+    for kind in ("add", "remove"):
+        ctx.reuse(f"C02.guard-{kind}", _c04.once, kind)
     ctx.guard("C02.ctor", ctor)
+    # a refusal raised inside a `with` block reaches the caller: __exit__ returns nothing truthy
+    from . import c03 as _c03
+
+    ctx.reuse("C02.no-swallow", _c03.exit_saves, "C03.exit")
     ctx.guard("C02.no-swallow", no_swallow)
     ctx.guard("C02.funnel", funnel)
     from . import c03
